@@ -2,7 +2,9 @@
 (***************************************************************************)
 (* Whole passes of the real local_mesh_refiner::refine_mesh (swaps off) on *)
 (* lattice cells, validated against RefinePass.  A record is one pass: the *)
-(* cell it started from (triangles, integer positions, band), the          *)
+(* cell it started from (the projection of the real cell -- fresh, or as   *)
+(* earlier passes, displacements and compactions left it -- with integer   *)
+(* positions and the band), the                                            *)
 (* operations the hooks of refine_mesh reported, in order, with the edge   *)
 (* (a, b, f1, f2) each of them was given, how the pass ended, and the      *)
 (* projection of the cell afterwards.                                      *)
@@ -31,8 +33,8 @@ FromJson(j) == [ nslots |-> j.nslots, fslots |-> j.fslots, used |-> ToSet(j.used
                  freeN |-> j.freeN, freeF |-> j.freeF ]
 
 TInit == /\ k \in 1..Len(Log)
-         /\ m = Mk(Log[k].nn, Log[k].tris)
-         /\ pos = [i \in 0..(Log[k].nn - 1) |-> Log[k].pos[i + 1]]
+         /\ m = Refresh(FromJson(Log[k].pre))      \* the normals are refreshed before every pass (a triangle of zero area has no side)
+         /\ pos = [i \in 0..(Log[k].pre.nslots - 1) |-> Log[k].prepos[i + 1]]
          /\ band = Log[k].band
          /\ todo = {} /\ it = 0 /\ blk = {} /\ pc = "start" /\ lastOp = <<"init">> /\ l = 1
 
@@ -56,7 +58,7 @@ TSpec == TInit /\ [][TNext]_tvars
 
 Ended == pc \in {"done", "unstable"} /\ l = Len(R.ops) + 1
 SameEnd  == pc = R.outcome /\ it = R.it /\ NEdges(m) = R.nedges
-SameMesh == m = FromJson(R.post)
+SameMesh == m = Refresh(FromJson(R.post))
 SamePos  == \A n \in m.used : pos[n] = R.postpos[n + 1]
 \* reports (always TRUE): which passes were followed to their end, and how far the others got
 Report == /\ (lastOp[1] \in {"split", "merge", "merge_blocked"} => PrintT(<<"AT", k, l>>))
